@@ -299,6 +299,15 @@ func runWorkbook(c *fw.Ctx, idx int, o genOpts, record bool) ([]failure, *wbMode
 			fails = append(fails, failure{"sheet-count", fmt.Sprintf("workbook declares %d sheets, reader has %d", len(m.Sheets), xr.SheetCount())})
 			return
 		}
+		if idx%2 == 1 {
+			// the Reader has already served other views (a selection of sheets, Markdown,
+			// the document model): the grid it hands out afterwards is still the workbook
+			xr.TextWithOptions(xlsx.ExtractOptions{Sheets: []int{len(m.Sheets) - 1}})
+			xr.MarkdownWithOptions(xlsx.ExtractOptions{Sheets: []int{len(m.Sheets) - 1}, IncludeHeaders: true})
+			xr.Markdown()
+			xr.Document()
+			xr.Tables()
+		}
 		tables := xr.Tables()
 		for k := range m.Sheets {
 			sm := &m.Sheets[k]
